@@ -83,6 +83,7 @@ def main(argv):
     model_hash = dict(zip(distinct_contents, (ds(h) for h in run_model([[603, x] for x in distinct_contents]))))
     rep.extra['md5_evaluations_in_model'] = len(distinct_contents)
     nv = 0
+    broken = []
     for ci, c in enumerate(cases):
         names = [x for x in (c['cfg']['ports']['r'][0] + c['cfg']['ports']['r'][1]) if isinstance(x, list)]
         biggest = max([len(x) for x in names] + [0])
@@ -112,6 +113,8 @@ def main(argv):
                 d = BC.first_diff([f[:2] + [f[3]] for f in i[1]], m[1])
                 if d:
                     problem, failing = f'correspondence legA:Builder.build broken: {d}', False
+        if problem and not failing:
+            broken.append(ci)
         if problem and nv < 5:
             nv += 1
             rep.violation(problem, {'file': c['file'], 'configuration': c['cfg'], 'document': dznjson.to_json(c['file']),
@@ -123,6 +126,17 @@ def main(argv):
         found = search_seed_dependence(rng)
         if found:
             rep.violation(found[0], found[1])
+        else:
+            # ... or the output depends on what the process built before: build a few of the disagreeing cases alone, each in a
+            # fresh interpreter with a fresh Builder, and compare with what the same inputs gave inside the batch
+            for ci in broken[:4]:
+                alone = BC.run_builds([cases[ci]], hashseed=seeds[0], order_seed=1000)[0][0]
+                if alone != runs[0][ci]:
+                    d = BC.first_diff(alone[1], runs[0][ci][1]) if alone[0] == 'ok' and runs[0][ci][0] == 'ok' else f'{alone[0]} vs {runs[0][ci][0]}'
+                    rep.violation('equal inputs give different output when built as the first build of a process and after other builds of the '
+                                  f'same process (same hash seed, same Builder object): {d}',
+                                  {'file': cases[ci]['file'], 'configuration': cases[ci]['cfg'], 'built_before': [c2['cfg'] for c2 in cases[:ci]][-3:]})
+                    break
     rep.extra['hash_seeds'] = seeds
     rep.extra['builds'] = len(cases) * len(seeds)
     gate = proof_gate('C08')
